@@ -217,6 +217,8 @@ def run_fit(c):
         out['results'] = [result_record(r) for r in results]
         out['windows'] = [r['window'] for r in out['results']]
         out['n_results'] = len(results)
+        if c.get('solo'):
+            out['solos'] = run_solos(c, results, kw)
     elif 'scalar' in c['windows']:
         # the call raised: ask the window construction alone (anchored private function) what it built
         try:
@@ -225,6 +227,32 @@ def run_fit(c):
         except Exception as e:      # noqa: BLE001
             out['windows_exc'] = exc_class(e)
     return out, results
+
+
+def run_solos(c, results, kw):
+    """every (peak item, background item) combination of the model lists fitted ON ITS OWN: one fit_peaks call
+    per combination with a single-model specification and, as explicit windows, exactly the windows of the
+    list-specification call.  The oracle recorders are NOT installed (these are plain calls of the public
+    function)."""
+    da = build_data(c)
+    est = sc.array(dims=['x'], values=np.array([unhx(v) for v in c['est']], dtype=float), unit=XU)
+    wv = np.array([[r.window.values[0], r.window.values[1]] for r in results], dtype=float).reshape(-1, 2)
+    windows = sc.array(dims=['x', 'range'], values=wv, unit=XU)
+    if len(c['est']) != len(results):
+        est = sc.array(dims=['x'], values=wv.mean(axis=1), unit=XU)
+    out = []
+    for ip, pit in enumerate(c['peak']['items']):
+        for ib, bit in enumerate(c['bkg']['items']):
+            ent = {'ip': ip, 'ib': ib}
+            try:
+                rs = peaks.fit_peaks(da, peak_estimates=est, windows=windows,
+                                     background=build_item(bit), peak=build_item(pit), **kw)
+                ent['exc'] = None
+                ent['results'] = [result_record(r) for r in rs]
+            except Exception as e:      # noqa: BLE001
+                ent['exc'] = {'cls': exc_class(e), 'type': type(e).__name__, 'msg': ascii_msg(e)}
+            out.append(ent)
+    return out
 
 
 def synth_result(s):
